@@ -35,4 +35,18 @@ def _fix():
         pass
 
 
+def _cov():
+    # tools/coverage_sweep.sh: line coverage of the code under test while the
+    # checks run (never set by a registered check)
+    rc = os.environ.get('VERIF_COV_RC')
+    if rc:
+        os.environ['COVERAGE_PROCESS_START'] = rc
+        try:
+            import coverage
+            coverage.process_startup()
+        except Exception:
+            pass
+
+
+_cov()
 _fix()
